@@ -38,8 +38,14 @@ contract("xdoctest.utils.util_str:indent", params={"text": "str", "prefix": "str
          ensures=[("prefix-every-line", "result == prefix + text.replace('\\n', '\\n' + prefix)")],
          opts={"native": False, "functional": "prefix + text.replace('\\n', '\\n' + prefix)"},
          note="prefix + text with the prefix inserted after every newline")
-contract("xdoctest.utils.util_str:add_line_numbers", params={"source": "list[str]", "start": "int", "n_digits": "Optional[int]"},
-         returns="list[str]", trusted=True, log=False, note="numbered variants are not under contract yet")
+contract("xdoctest.utils.util_str:add_line_numbers", params={"source": "list[str]", "start": "int", "n_digits": "int"},
+         returns="list[str]", modifies=[], log=False,
+         ensures=[("one-numbered-line-per-line", "len(result) == len(source)"),
+                  ("numbers-count-up-from-start",
+                   "all(result[k] == S.fmt_d(start + k, n_digits) + ' ' + source[k] for k in range(len(source)))")],
+         props=["C18"], opts={"native": False},
+         note="a list of lines and a given number width: line k is shown as the number start + k, a blank, and the line itself",
+         sentinel=("numbers-from-one", "implies(len(source) > 0, result[0] == S.fmt_d(1, n_digits) + ' ' + source[0])"))
 contract("xdoctest.utils.util_str:highlight_code", params={"text": "str", "lexer_name": "str"}, returns="str", trusted=True, log=False)
 
 _HW = "(self.want_lines is not None and len(self.want_lines) > 0 and len('\\n'.join(self.want_lines)) > 0)"
@@ -59,3 +65,36 @@ contract("xdoctest.doctest_part:DoctestPart.format_part",
                             invariants=[("wants-so-far", "want_lines == (self.want_lines[:_i0] if want else [])")])},
          props=["C18", "C19"], opts={"native": False},
          sentinel=("drops-the-want", "result == '\\n'.join(self.orig_lines)"))
+
+
+# ------------------------------------------------------------------------ C18.numbers: the numbered display
+_NUM = "[S.fmt_d(startline + self.line_offset + k, n_digits) + ' ' + x for k, x in enumerate(self.orig_lines)]"
+_PAD = "[' ' * (n_digits + 1) + w for w in self.want_lines]"
+contract("xdoctest.doctest_part:DoctestPart.format_part#numbered",
+         params={"self": "DoctestPart", "linenos": "bool", "want": "bool", "startline": "int", "n_digits": "int",
+                 "colored": "bool", "partnos": "bool", "prefix": "bool"},
+         returns="str",
+         requires=[("numbered-display", "linenos and prefix and not colored and not partnos"),
+                   ("prompt-lines-kept", "self.orig_lines is not None and len(self.orig_lines) > 0"),
+                   ("plain-lines", "S.plain_lines(self.orig_lines) and implies(want and self.want_lines is not None, S.plain_lines(self.want_lines))")],
+         modifies=[],
+         loops={0: LoopSpec(header="want_text.splitlines()", types={"want_lines": "list[str]"},
+                            invariants=[("one-per-visited-want-line", "len(want_lines) == (_i0 if want else 0)"),
+                                        ("padded-wants-so-far", "all(want_lines[k] == ' ' * (n_digits + 1) + self.want_lines[k] "
+                                                                "for k in range(len(want_lines)))")])},
+         props=["C18"],
+         opts={"native": False,
+               "exit_facts": [("every-source-line-carries-its-position",
+                               "len(part_lines) == len(self.orig_lines) and "
+                               "all(part_lines[k] == S.fmt_d(startline + self.line_offset + k, n_digits) + ' ' + self.orig_lines[k] "
+                               "for k in range(len(self.orig_lines)))"),
+                              ("want-lines-padded-not-numbered",
+                               "len(want_lines) == (len(self.want_lines) if (want and " + _HW + ") else 0) and "
+                               "all(want_lines[k] == ' ' * (n_digits + 1) + self.want_lines[k] for k in range(len(want_lines)))"),
+                              ("the-text-is-these-lines-in-order",
+                               "part_text == ('\\n'.join(part_lines) + '\\n' + '\\n'.join(want_lines) if len(want_lines) > 0 "
+                               "else '\\n'.join(part_lines))")]},
+         note="numbered display: source line k of the part is shown as the number startline + line_offset + k (its position in the "
+              "doctest, or in the file when startline is the doctest's line), a blank and the line; want lines are indented by the "
+              "width of the number column and carry no number",
+         sentinel=("numbers-ignore-the-part-offset", "True == False"))
